@@ -419,9 +419,27 @@ def run_call_batch(v, desc, scratch):
             shared = [r for r in roots if r in case["defaults"] and sum(1 for f in case["funcs"] if r in f["defaults"] and r not in f["bound"]) >= 2]
             if shared:
                 faults.append(("inconsistent-defaults-after-member-update", shared[0], {k: x for k, x in full.items() if k != shared[0]}))
+            # the same surplus / missing keywords given through the NESTED form of a scope that all functions share
+            if i % 3 == 0:
+                faults.append(("added-keyword-in-scope-dict", "zz_extra", {"sc": {**full, "zz_extra": "q"}}))
+                for r in roots:
+                    if r not in case["defaults"]:
+                        faults.append(("dropped-keyword-in-scope-dict", r, {"sc": {k: x for k, x in full.items() if k != r}}))
+                        break
             for op, label, K in faults:
                 for form in ("call", "run"):
                     pp = p
+                    if op.endswith("-in-scope-dict"):
+                        with quiet():
+                            pp = daggen.build_pipeline(case, log=log)
+                            pp.update_scope("sc", "*", "*")
+                        # a valid nested call must work (otherwise the scenario says nothing)
+                        try:
+                            with quiet():
+                                pp(f"sc.{out}", sc=dict(full))
+                        except Exception:  # noqa: BLE001
+                            v.count("scoped_valid_call_refused")
+                            continue
                     if op == "inconsistent-defaults-after-member-update":
                         with quiet():
                             pp = daggen.build_pipeline(case, log=log)
@@ -430,7 +448,7 @@ def run_call_batch(v, desc, scratch):
                     # other outputs called first with the SAME keyword names (those calls may be valid): a memo of
                     # "validated" keyword names must not leak from one output to another
                     for o2 in daggen.all_outputs(case):
-                        if o2 != out:
+                        if o2 != out and not op.endswith("-in-scope-dict"):
                             try:
                                 with quiet():
                                     pp(o2, **K)
@@ -441,10 +459,11 @@ def run_call_batch(v, desc, scratch):
                     err = None
                     try:
                         with quiet():
+                            tgt_out = f"sc.{out}" if op.endswith("-in-scope-dict") else out
                             if form == "call":
-                                pp(out, **K)
+                                pp(tgt_out, **K)
                             else:
-                                pp.run(out, kwargs=dict(K), full_output=rng.random() < 0.5)
+                                pp.run(tgt_out, kwargs=dict(K), full_output=rng.random() < 0.5)
                     except Exception as e:  # noqa: BLE001
                         err = e
                     calls = probes.log_read(log)
@@ -470,7 +489,7 @@ def run_case(desc):
 OPS = ["duplicate-output", "output-named-like-own-parameter", "cycle", "inconsistent-defaults", "inconsistent-defaults-after-member-update", "mapspec-names-non-parameter",
        "mapspec-names-wrong-output", "axis-name-swap-in-consumer", "axis-name-conflict-beside-reduction", "rank-change-in-consumer", "dropped-input", "added-input",
        "resized-zipped-axis", "changed-input-rank", "scalar-for-mapped-input", "unknown-storage", "executor-with-parallel-false",
-       "dropped-keyword", "added-keyword"]
+       "dropped-keyword", "added-keyword", "added-keyword-in-scope-dict"]
 
 
 def finalize(agg, tier, seed):
